@@ -191,9 +191,13 @@ def run(m: Model, r: Report, tier: str) -> None:
     store_nodes = {n.id for n in gi.nodes.values() if n.kind == "stmt" and isinstance(n.ast, ast.Assign) and isinstance(n.ast.targets[0], ast.Subscript)
                    and "__config_registry" in ast.unparse(n.ast.targets[0].value) and m.mtext(isc, n.ast.targets[0].slice, ri) == "KEY"}
     heads = {n.id for n in gi.nodes.values() if n.kind == "loop" and n.ast is li} | {gi.exit_return}
-    if len(key_nodes) != 1 or not store_nodes:
+    if not key_nodes or not store_nodes:
         raise AnalysisError(f"{isc.qualname}: registry key computation / store not found")
-    okreg, preg = gi.must_pass(key_nodes[0], store_nodes, heads, completed=True)
+    okreg, preg = True, []
+    for kn_ in key_nodes:
+        ok1_, p1_ = gi.must_pass(kn_, store_nodes, heads, completed=True)
+        if not ok1_:
+            okreg, preg = False, p1_
     r.check(okreg, "R4", f"{isc.qualname}#always-registered",
             "an option can leave the registration block without having been stored in the registry (the template then does not list a key the file lookup reads): "
             + " -> ".join(repr(gi.nodes[p_]) for p_ in preg[-4:]), loc=isc.loc)
@@ -202,10 +206,24 @@ def run(m: Model, r: Report, tier: str) -> None:
     r.check("GalliaBaseModel.registry().items()" in ts and "'.'.join(tmp[:-1])" in ts and "tmp[-1]" in ts and "f'[{group}]\\n'" in ts, "R4", f"{tp.qualname}#groups",
             "the template must print every registry key as [section] / attribute", loc=tp.loc)
     gv = m.require_function(f"{CONF}.Config.get_value")
-    rets = [ast.unparse(n.value) for n in walk_no_nested(gv.node) if isinstance(n, ast.Return) and n.value is not None]
-    mrets = [m.mtext(gv, n.value) for n in walk_no_nested(gv.node) if isinstance(n, ast.Return) and n.value is not None]
-    r.check("_L if _L is not None else default" in mrets and all("or default" not in x for x in rets), "R7", f"{gv.qualname}#falsy-values",
-            f"get_value returns {rets}: values such as false, 0 or '' in gallia.toml must not be treated as absent", loc=gv.loc)
+    # the final answer, decided over the looked-up value in {None, False, 0, '', 'x'}: the default exactly for None
+    from sa.util import path_condition as _pcg, truth_table as _ttg
+    dpar = gv.params()[2] if len(gv.params()) > 2 else "default"
+    loops_g = [n for n in walk_no_nested(gv.node) if isinstance(n, (ast.For, ast.While))]
+    final_rets = [n for n in walk_no_nested(gv.node) if isinstance(n, ast.Return) and n.value is not None and not any(n is x for l_ in loops_g for x in ast.walk(l_))]
+    vals_ = sorted({x.id for n in final_rets for x in ast.walk(n.value) if isinstance(x, ast.Name) and x.id != dpar})
+    if len(vals_) != 1 or not final_rets:
+        r.unrecognised("R7", f"{gv.qualname}#falsy-values", f"final return(s) of get_value read {vals_}", gv.loc)
+    else:
+        badf = []
+        for n in final_rets:
+            txt_ = ast.unparse(n.value)
+            if txt_ not in (dpar, vals_[0]):
+                badf.append(f"returns `{txt_}`")
+                continue
+            badf += _ttg(_pcg(gv.node, n), {vals_[0]: [None, False, 0, "", "x"]}, (lambda a: a[vals_[0]] is None) if txt_ == dpar else (lambda a: a[vals_[0]] is not None))
+        r.check(not badf, "R7", f"{gv.qualname}#falsy-values",
+                f"get_value answers wrongly on {badf}: values such as false, 0 or '' in gallia.toml must not be treated as absent", loc=gv.loc)
     # descending into the nested tables: the default is returned early exactly when the path left the tables (current level is None)
     from sa.util import path_condition as _pc18, truth_table as _tt18
     gv_loops = [n for n in walk_no_nested(gv.node) if isinstance(n, ast.For)]
@@ -216,10 +234,20 @@ def run(m: Model, r: Report, tier: str) -> None:
     atoms_e = sorted({x.id for t, _ in conds_e for x in ast.walk(t) if isinstance(x, ast.Name)})
     bad_e = _tt18(conds_e, {a_: [None, {"k": 1}] for a_ in atoms_e}, lambda a: all(v is None for v in a.values())) if len(atoms_e) == 1 else ["?"]
     r.check(not bad_e, "R7", f"{gv.qualname}#descent", f"the default is returned early on {bad_e}: it must be returned exactly when the current table is missing (None)", loc=gv.loc)
-    step = [n for n in ast.walk(gv_loops[0]) if isinstance(n, ast.Assign) and isinstance(n.value, ast.IfExp) and "isinstance(" in ast.unparse(n.value.test) and "dict" in ast.unparse(n.value.test)]
-    r.check(len(step) == 1 and isinstance(step[0].value.orelse, ast.Constant) and step[0].value.orelse.value is None and
-            m.mtext(gv, step[0].value.body) == "_L" and m.mtext(gv, step[0].value.test) == "isinstance(_L, dict)", "R7", f"{gv.qualname}#descent-step",
-            "the next table is the looked-up value if it is a dict, else None", loc=gv.loc)
+    # the table variable (the one the early return tests) after a step: the looked-up value if that is a dict, else None
+    from sa.util import choice_table as _ct18
+    looked = sorted({n.targets[0].id for n in ast.walk(gv_loops[0]) if isinstance(n, ast.Assign) and isinstance(n.targets[0], ast.Name) and isinstance(n.value, ast.Call)
+                     and isinstance(n.value.func, ast.Attribute) and n.value.func.attr == "get"})
+    if len(atoms_e) != 1 or len(looked) != 1:
+        r.unrecognised("R7", f"{gv.qualname}#descent-step", f"table variable {atoms_e} / looked-up value {looked}", gv.loc)
+    else:
+        tv_, lv_ = atoms_e[0], looked[0]
+        body_fn = ast.FunctionDef(name="_step", args=ast.arguments(posonlyargs=[], args=[], kwonlyargs=[], kw_defaults=[], defaults=[]),
+                                  body=[s_ for s_ in gv_loops[0].body if not (isinstance(s_, ast.If) and any(x is early[0] for x in ast.walk(s_)))], decorator_list=[], lineno=0, col_offset=0)
+        tstep = _ct18(body_fn, tv_, {lv_: [None, 0, "x", {"k": 1}]})
+        bads = {repr(k_[0]): v_ for k_, v_ in tstep.items() if v_ != (lv_ if str(k_[0]).startswith("{") else "None")}
+        r.check(not bads, "R7", f"{gv.qualname}#descent-step", f"after looking up a part the next table is {bads} (looked-up value -> source): it must be the looked-up value "
+                "if that is a dict, else None", loc=gv.loc)
     r.check("(_L := config.get_value(KEY)) is not None" in m.mtext(fc, None, rc), "R7", f"{fc.qualname}#present-test", "file values must be tested with `is not None`", loc=fc.loc)
     r.check("(_L := os.getenv(KEY)) is not None" in m.mtext(fe, None, re_), "R7", f"{fe.qualname}#present-test", "env values must be tested with `is not None`", loc=fe.loc)
 
